@@ -963,6 +963,12 @@ impl ProxySession for HttpsSession {
         // defer backend closing to the state
         // in case of https it should also send a close notify on the client before the socket is closed below
         self.state.close(self.proxy.clone(), &mut self.metrics);
+        // A WebSocket pipe owns the backend connection it took out of the mux
+        // at upgrade time: give it back (after `state.close`, which still
+        // needs the handle for the request count).
+        if let HttpsStateMachine::WebSocket(pipe) = &mut self.state {
+            pipe.release_backend_connection();
+        }
 
         // Shut down the write side only. shutdown(Both) includes SHUT_RD which
         // discards unread data in the receive buffer (e.g. client's GOAWAY, ACKs).
